@@ -62,6 +62,15 @@ func zzApplyOp(l *SimpleLedger, m *zzModel, nOps int) {
 		l.SetState(zzAddrs[1], []byte("b"), v, nil)
 		m.kv["1b"] = v
 	case 8:
+		// the storage-holding address gets its account record (first balance) and one of its
+		// keys is overwritten in the same block
+		b := zz.U64("bal")
+		v := []byte{zz.U8("v")}
+		l.SetBalance(zzAddrs[1], new(big.Int).SetUint64(b))
+		l.SetState(zzAddrs[1], []byte("b"), v, nil)
+		m.bal = b
+		m.kv["1b"] = v
+	case 9:
 		// touch without change
 		_, _ = l.GetState(zzAddrs[0], []byte("ab"))
 		_ = l.GetBalance(zzAddrs[1])
@@ -104,18 +113,18 @@ func ZZH_C12_rollback() {
 	cache, _ := NewAccountCache()
 	l := zzNewLedger(store, cache)
 	B := 2
-	nOps := 8
+	nOps := 9
 	if zz.Thorough() {
 		B = 3
-		nOps = 9
+		nOps = 10
 	}
 	m := zzModel{kv: map[string][]byte{}}
 	models := []zzModel{m.clone()}
 	roots := []*types.Hash{{}}
 	for b := 1; b <= B; b++ {
 		zzApplyOp(l, &m, nOps)
-		if b == 1 || zz.Thorough() {
-			// quick: two operations in the first block, one in the others
+		if b == 1 {
+			// two operations in the first block, one in the others (thorough: three blocks)
 			if zz.Choice("second", 2) == 1 {
 				zzApplyOp(l, &m, nOps)
 			}
